@@ -103,6 +103,22 @@ ValidFile(p0, streams, pads, garbage) ==
   /\ \A i \in 1..Len(streams) : ValidStream(streams[i]) /\ pads[i] % 4 = 0
   /\ ~garbage
 
+(*------------------- canonical layout constructors ----------------------*)
+Blk(csize, usize, withC, withU, dict, maxDist) ==
+  LET cf == IF withC THEN csize ELSE -1
+      uf == IF withU THEN usize ELSE -1
+  IN [sizeByte |-> (BlockHeaderLen(cf, uf) \div 4) - 1, resv |-> 0, nfilters |-> 1,
+      csizeF |-> cf, usizeF |-> uf, filterId |-> 33, propLen |-> 1, dictCode |-> dict,
+      hpadZero |-> TRUE, hcrcOk |-> TRUE, csize |-> csize, usize |-> usize,
+      padLen |-> PadLen(csize), padZero |-> TRUE, checkOk |-> TRUE, l2Ok |-> TRUE, maxDist |-> maxDist]
+
+Strm(check, blocks) ==
+  LET recs == [i \in 1..Len(blocks) |-> [unpadded |-> Unpadded(blocks[i], check), usize |-> blocks[i].usize]]
+  IN [magicOk |-> TRUE, hflag0 |-> 0, check |-> check, hcrcOk |-> TRUE, blocks |-> blocks,
+      indicator |-> 0, count |-> Len(blocks), recs |-> recs,
+      ipadLen |-> PadLen(IndexBodyLen(Len(blocks), recs)), ipadZero |-> TRUE, icrcOk |-> TRUE,
+      backward |-> IndexSize(Len(blocks), recs), fflag0 |-> 0, fcheck |-> check, fcrcOk |-> TRUE, fmagicOk |-> TRUE]
+
 (*-------------------- what the writer is obliged to emit -----------------*)
 (* Given the configuration (blockSize, check, dictCode) and n bytes of     *)
 (* input, the writer emits ceil(n / blockSize) blocks (one empty block for *)
